@@ -152,6 +152,40 @@ def check_compose(n: int, c0: int, c1: int, c2: int, c3: int, c4: int, x: int, p
     return h.ok(r3 == r1 and comp.name == ATTRS[last]["name"])
 
 
+def check_nested(n: int, c0: int, c1: int, c2: int, c3: int, x: int, p: int, form: int) -> bool:
+    """
+    pre: 2 <= n <= 3
+    pre: 0 <= c0 <= 4 and 0 <= c1 <= 3 and 0 <= c2 <= 2 and 0 <= c3 <= 1
+    pre: 0 <= p <= 3
+    pre: 0 <= form <= 1
+    pre: h.in_shard(c0)
+    post: _
+    """
+    # a composition used as one element of a Sequence / of another Compose
+    # is the same function as the flat chain, however often it is applied
+    n = h.concrete(n, 2, 3)
+    idx = pick(n + 1, c0, c1, c2, c3, 0)
+    vs_all = pool()
+    vs = [vs_all[i] for i in idx]
+    inner = Compose(*vs[:n])
+    snap_inner = copy.deepcopy(inner.var_context)
+    snaps = [copy.deepcopy(v.var_context) for v in vs]
+    flat = list(Sequence(*vs).run(iter([mkval(x, p)])))[0]
+    for _ in range(2):
+        if form == 0:
+            got = list(Sequence(inner, vs[n]).run(iter([mkval(x, p)])))[0]
+        else:
+            got = Compose(inner, vs[n])(mkval(x, p))
+        if got != flat:
+            return h.ok(False)
+        if inner.var_context != snap_inner:
+            return h.ok(False)
+    for v, s in zip(vs, snaps):
+        if v.var_context != s:
+            return h.ok(False)
+    return h.ok(True)
+
+
 def check_combine(n: int, c0: int, c1: int, c2: int, c3: int, x: int, p: int) -> bool:
     """
     pre: 1 <= n <= B.COMB
@@ -217,6 +251,8 @@ CONDITIONS = [
     dict(fn="check_compose", shards=(20, 20), budget=(80, 1500),
          smoke=["check_compose(2, 1, 0, 0, 0, 0, 5, 0)", "check_compose(3, 4, 3, 2, 0, 0, 5, 3)",
                 "check_compose(1, 2, 0, 0, 0, 0, 5, 2)"]),
+    dict(fn="check_nested", shards=(5, 5), budget=(80, 900),
+         smoke=["check_nested(2, 0, 0, 0, 0, 5, 0, 0)", "check_nested(2, 4, 3, 2, 0, 5, 3, 1)"]),
     dict(fn="check_combine", shards=(5, 5), budget=(80, 900),
          smoke=["check_combine(2, 1, 0, 0, 0, 5, 0)", "check_combine(3, 4, 3, 2, 0, 5, 3)"]),
     dict(fn="check_bad_args", budget=(40, 100), smoke=["check_bad_args(1)"]),
